@@ -371,7 +371,7 @@ func runC15(w *World, r *Report) {
 	// ---- the overlap check compares canonical paths: a field promoted from an embedded struct is the same storage as the
 	// path through the embedded struct, so target paths are spelled out against the node's declared input type before
 	// they go into the trie
-	r.Rule("C15.overlap-canonical", "checkAndAddMappedPath inserts into the trie a path that derives from a canonicalisation against the node's input type (a function consulting reflect.Type.FieldByName and the field's Index)", 1)
+	r.Rule("C15.overlap-canonical", "checkAndAddMappedPath inserts into the trie a path that derives from a canonicalisation against the node's input type (a function consulting reflect.Type.FieldByName and the field's Index) and following every container kind the destination walk follows", 2)
 	{
 		campF := w.Fn("compose", "WorkflowNode.checkAndAddMappedPath")
 		var canon ssa.CallInstruction
@@ -415,6 +415,38 @@ func runC15(w *World, r *Report) {
 					}
 				}
 			})
+		}
+		if canon != nil {
+			// … through every container the destination walk goes through: a target path below a map is walked by assignOne
+			// (map entry, then the struct in it), so the canonicaliser follows maps too — or two targets under one key, one to an
+			// embedded struct and one to a field promoted from it, are not seen as overlapping
+			kinds := func(fn *ssa.Function) map[int64]bool {
+				out := map[int64]bool{}
+				instrs(fn, func(x ssa.Instruction) {
+					b, ok := x.(*ssa.BinOp)
+					if !ok || (b.Op != token.EQL && b.Op != token.NEQ) {
+						return
+					}
+					for _, v := range []ssa.Value{b.X, b.Y} {
+						if c, isC := v.(*ssa.Const); isC && c.Type().String() == "reflect.Kind" {
+							if k, ok := constInt(c); ok {
+								out[k] = true
+							}
+						}
+					}
+				})
+				return out
+			}
+			have := kinds(staticCallee(canon))
+			walk := kinds(w.Fn("compose", "assignOne"))
+			var missing []string
+			for k, nm := range map[int64]string{int64(reflect.Map): "Map", int64(reflect.Struct): "Struct"} {
+				if walk[k] && !have[k] {
+					missing = append(missing, nm)
+				}
+			}
+			sort.Strings(missing)
+			r.Check(len(missing) == 0, "C15.overlap-canonical", "the canonicaliser descends through every container kind the destination walk does", canon.Pos(), "Map and Struct are both followed", "canonicalTargetPath stops at a "+strings.Join(missing, ", ")+": with Elem struct{Base; H} the targets [k Base] and [k F] on a map[string]Elem are accepted as non-overlapping — at run time one assignment clobbers the other in map-iteration order")
 		}
 		r.Check(good, "C15.overlap-canonical", "checkAndAddMappedPath canonicalises target paths before the trie walk", campF.Pos(), "promoted field names are expanded to the path through their embedded structs", "target paths are compared as written: a mapping to an embedded struct and a mapping to one of its promoted fields (['Base'] and ['F'] where F is Base.F) are not seen as a path and one of its sub-paths — Compile accepts them, and which of the two values the successor ends up with depends on Go's map iteration order (38 vs 262 of 300 runs)")
 	}
@@ -516,6 +548,7 @@ func runC15(w *World, r *Report) {
 	mappedZeroChecks(w, r, "C15.static-only-converted")
 
 	shareRule(w, r, "C15.keyed-node-converter-is-the-maps", "a node with an input key takes its mapped fields as a map: forMapInput rebuilds the input-side slots for map[string]any instead of copying the wrapped component's", 4, "C04", "C04.in-out-wiring")
+	shareRule(w, r, "C15.compile-installs-converters-per-compile", "Compile installs the map-to-input converter of a field-mapped node into a per-compile copy, never into the builder's own handler table: a second Compile of the same workflow would install it twice and every run fail 'unexpected input type'", 1, "C20", "C20.compile-pure")
 
 	r.Rule("C15.destination-walk-instantiates", "on the destination side a field promoted through an embedded pointer is reachable: the function checkAndExtractToField resolves the target field with instantiates nil pointers on the way (reflect.New + Set), like instantiateIfNeeded does for named pointer fields — the destination is always a fresh value, so an erroring lookup there fails on every run of a mapping Compile accepted; and the deferred declarations of a WorkflowNode keep their own copy of the caller's mapping list", 2)
 	{
